@@ -443,7 +443,16 @@ pub fn run(args: &Args) -> i32 {
         } else if foreign {
             // the track_ID field of one tfhd
             let cands: Vec<&crate::refenc::Field> = b.whole.fields.iter().filter(|f| f.path.contains("tfhd") && f.path.contains(".track_ID#")).collect();
-            if let Some(f) = cands.get(rng.usize_below(cands.len().max(1))) {
+            if g % 8 == 2 {
+                // every track fragment names a different track the movie does not have: which
+                // one the open error reports must not depend on the order of a hash map either
+                for (k, f) in cands.iter().enumerate() {
+                    crate::hostile::put(&mut bytes, f.off, f.width, 7000 + 13 * k as u64);
+                }
+                if cands.len() >= 2 {
+                    rep.add("subjects_with_several_distinct_foreign_track_ids", 1);
+                }
+            } else if let Some(f) = cands.get(rng.usize_below(cands.len().max(1))) {
                 crate::hostile::put(&mut bytes, f.off, f.width, *rng.pick(&[0u64, 7777, 0xFFFF_FFFF, 0x8000_0000]));
             }
         }
